@@ -11,14 +11,16 @@ import re
 import warnings
 
 PROP = "C13"
-COQ = dict(imports=["Model.AlterCol", "Spec.C13"], in_ty="c13_in", out_ty="out",
-           corr="corr_C13", decide="check_C13", model="model_C13")
-THEOREMS = ["C13_sem_is_assign", "C13_decider_sound", "C13_model_holds_partial", "C13_effect", "C13_restated",
-            "C13_raises_instead", "C13_raises_iff_unsupported", "C13_toimpl_frame", "C13_autoinc_ignored", "C13_autoinc_ignored_refuted",
-            "C13_stated_enough_exact", "C13_stated_enough_minimal"]
+COQ = dict(imports=["Model.AlterCol", "Spec.C13"], in_ty="c13_in", out_ty="iout",
+           corr="corr_C13", decide="check_C13", model="tagged_C13")
+THEOREMS = ["C13_sem_is_assign", "C13_run_addressing", "C13_decider_sound", "C13_model_holds_partial", "C13_effect",
+            "C13_restated", "C13_raises_instead", "C13_raises_iff_unsupported", "C13_toimpl_frame", "C13_autoinc_ignored",
+            "C13_autoinc_ignored_refuted", "C13_check_after_rename_refuted", "C13_stated_enough_exact",
+            "C13_stated_enough_minimal"]
 TRUSTED = [
     "C13 statement tokenizer in harness/props/c13.py (SQL text -> abstract statements; strict per dialect, fails loudly)",
-    "abstract meaning `sem` of each statement on a column state (MySQL CHANGE/MODIFY replace the whole definition; "
+    "abstract meaning `sem` of each statement on a column state (a statement that names a column name the column does not "
+    "have at that point fails; MySQL CHANGE/MODIFY replace the whole definition; "
     "MSSQL ALTER COLUMN without NULL/NOT NULL makes the column nullable; Oracle DEFAULT NULL / COMMENT '' clear)",
     "SQLAlchemy type / default / literal rendering is an opaque token (one token per catalogue value and dialect)",
 ]
@@ -56,6 +58,8 @@ CK_IDS = {"ckb": 50, "cke": 51}         # names of the type-bound CHECKs of B0 (
 DEFAULT_IDS = {"7": 7, "9": 9}          # existing default text '7', requested '9'
 COMMENT_IDS = {"oc": 30, "nc": 31}      # existing comment, requested comment
 NAME_IDS = {"c": 1, "d": 2}
+SCHEMA_IDS = {"s": 60}                  # Spec.C13: tS = (Some 60, 61), tN = (None, 61)
+TABLE_IDS = {"t": 61}
 USING_IDS = {"u1": 40}
 
 
@@ -167,36 +171,40 @@ def encode_in(h):
     ex = "(mkEx 1 %s %s %s %s %s)" % (
         _opt(e["type"], lambda t: _ty(t, h["d"])), _opt(e["null"], _b), _tri(e["default"], 7),
         "None" if e["comment"] is None else "(Some 30)", _opt(e["autoinc"], _b))
-    return "(mkIn %s %s %s %s)" % (COQ_DIALECT[h["d"]], _b(h["schema"]), req, ex)
+    return "(mkIn %s %s %s %s)" % (COQ_DIALECT[h["d"]], "tS" if h["schema"] else "tN", req, ex)
 
 
 def encode_stmt(s, d):
+    """s = (kind, addressed column id or None, args...)"""
     _ty = lambda t: globals()["_ty"](t, d)
-    k = s[0]
+    k, c = s[0], s[1]
     if k == "SetNull":
-        return "SetNull %s" % _b(s[1])
+        return "SetNull %d %s" % (c, _b(s[2]))
     if k in ("SetDefault", "MySQLAlterDefault", "SetComment"):
-        return "%s %s" % (k, _opt(s[1], str))
+        return "%s %d %s" % (k, c, _opt(s[2], str))
     if k == "SetType":
-        return "SetType %s %s" % (_ty(s[1]), _opt(s[2], str))
-    if k in ("Rename", "MSSQLSpRename", "MSSQLAddDefault", "DropConstraint", "AddConstraint"):
-        return "%s %d" % (k, s[1])
+        return "SetType %d %s %s" % (c, _ty(s[2]), _opt(s[3], str))
+    if k in ("Rename", "MSSQLSpRename", "MSSQLAddDefault", "AddConstraint"):
+        return "%s %d %d" % (k, c, s[2])
+    if k == "DropConstraint":
+        return "DropConstraint %d" % s[2]
     if k in ("MySQLChange", "MySQLModify"):
         sp = s[-1]
         spec = "(mkSpec %s %s %s %s %s)" % (_ty(sp["type"]), _b(sp["null"]), _b(sp["autoinc"]),
                                             _opt(sp["default"], str), _opt(sp["comment"], str))
-        return "MySQLChange %d %s" % (s[1], spec) if k == "MySQLChange" else "MySQLModify %s" % spec
+        return "MySQLChange %d %d %s" % (c, s[2], spec) if k == "MySQLChange" else "MySQLModify %d %s" % (c, spec)
     if k == "MSSQLAlterNull":
-        return "MSSQLAlterNull %s %s" % (_ty(s[1]), _b(s[2]))
+        return "MSSQLAlterNull %d %s %s" % (c, _ty(s[2]), _b(s[3]))
     if k == "MSSQLAlterType":
-        return "MSSQLAlterType %s" % _ty(s[1])
+        return "MSSQLAlterType %d %s" % (c, _ty(s[2]))
     if k == "MSSQLDropDefault":
-        return "MSSQLDropDefault"
+        return "MSSQLDropDefault %d" % c
     raise AssertionError("unknown abstract statement %r" % (s,))
 
 
-def encode_out(stmts, err, d):
-    return "([%s], %s)" % ("; ".join(encode_stmt(s, d) for s in stmts), "None" if err is None else "(Some %s)" % err)
+def encode_out(tstmts, err, d):
+    return "([%s], %s)" % ("; ".join("(%s, %s)" % (t, encode_stmt(s, d)) for t, s in tstmts),
+                           "None" if err is None else "(Some %s)" % err)
 
 
 # ----------------------------------------------------------------------------- the real code
@@ -329,123 +337,138 @@ def _lit(s):
     return m.group(1)
 
 
-def parse_statement(dn, s, tbl, tokens):
-    """one statement of dialect dn -> abstract statement (tuple); raises ValueError when not recognised"""
+TBL = r"(?:(?P<sch>\w+)\.)?(?P<tbl>\w+)"
+COL = r"(?P<col>\w+)"
+
+
+def _target(m, sch="sch", tbl="tbl"):
+    """(schema, table) named by the statement -> 'tS' / 'tN' (Spec.C13); unknown names are a harness error"""
+    sc, tb = m.group(sch), m.group(tbl)
+    if tb not in TABLE_IDS or (sc is not None and sc not in SCHEMA_IDS):
+        raise ValueError("statement targets an unknown table: %r.%r" % (sc, tb))
+    return "tS" if sc is not None else "tN"
+
+
+def parse_statement(dn, s, tokens):
+    """one statement of dialect dn -> (target, abstract statement); the abstract statement is
+    (kind, addressed column id or None, args...).  raises ValueError when not recognised"""
     ty_alt = "|".join(re.escape(t) for t in sorted(tokens, key=len, reverse=True))
-    T = re.escape(tbl)
     mysql = dn in ("mysql", "mariadb")
-    m = re.fullmatch(r"ALTER TABLE %s DROP CONSTRAINT (\w+)" % T, s)
+    col = lambda m: NAME_IDS[m.group("col")]
+    AT = "ALTER TABLE " + TBL + " "
+    m = re.fullmatch(AT + r"DROP CONSTRAINT (\w+)", s)
     if m and not mysql:
-        return ("DropConstraint", CK_IDS[m.group(1)])
-    m = re.fullmatch(r"ALTER TABLE %s ADD CONSTRAINT (ckb) CHECK \(c IN \(0, 1\)\)" % T, s) or \
-        re.fullmatch(r"ALTER TABLE %s ADD CONSTRAINT (cke) CHECK \(c IN \('a', 'b'\)\)" % T, s)
+        return _target(m), ("DropConstraint", None, CK_IDS[m.group(3)])
+    m = re.fullmatch(AT + r"ADD CONSTRAINT (?P<ck>ckb) CHECK \(" + COL + r" IN \(0, 1\)\)", s) or \
+        re.fullmatch(AT + r"ADD CONSTRAINT (?P<ck>cke) CHECK \(" + COL + r" IN \('a', 'b'\)\)", s)
     if m:
-        return ("AddConstraint", CK_IDS[m.group(1)])
+        return _target(m), ("AddConstraint", col(m), CK_IDS[m.group("ck")])
     if dn == "oracle":
-        m = re.fullmatch(r"ALTER TABLE %s MODIFY c (NULL|NOT NULL)" % T, s)
+        m = re.fullmatch(AT + "MODIFY " + COL + r" (NULL|NOT NULL)", s)
         if m:
-            return ("SetNull", m.group(1) == "NULL")
-        m = re.fullmatch(r"ALTER TABLE %s MODIFY c DEFAULT (NULL|'[^']*')" % T, s)
+            return _target(m), ("SetNull", col(m), m.group(4) == "NULL")
+        m = re.fullmatch(AT + "MODIFY " + COL + r" DEFAULT (NULL|'[^']*')", s)
         if m:
-            return ("SetDefault", None if m.group(1) == "NULL" else DEFAULT_IDS[_lit(m.group(1))])
-        m = re.fullmatch(r"ALTER TABLE %s MODIFY c (%s)" % (T, ty_alt), s)
+            return _target(m), ("SetDefault", col(m), None if m.group(4) == "NULL" else DEFAULT_IDS[_lit(m.group(4))])
+        m = re.fullmatch(AT + "MODIFY " + COL + r" (%s)" % ty_alt, s)
         if m:
-            return ("SetType", tokens[m.group(1)], None)
-        m = re.fullmatch(r"COMMENT ON COLUMN %s\.c IS ('[^']*')" % T, s)
+            return _target(m), ("SetType", col(m), tokens[m.group(4)], None)
+        m = re.fullmatch(r"COMMENT ON COLUMN " + TBL + r"\." + COL + r" IS ('[^']*')", s)
         if m:
-            c = _lit(m.group(1))
-            return ("SetComment", None if c == "" else COMMENT_IDS[c])
-        m = re.fullmatch(r"ALTER TABLE %s RENAME COLUMN c TO (\w+)" % T, s)
+            c = _lit(m.group(4))
+            return _target(m), ("SetComment", col(m), None if c == "" else COMMENT_IDS[c])
+        m = re.fullmatch(AT + "RENAME COLUMN " + COL + r" TO (\w+)", s)
         if m:
-            return ("Rename", NAME_IDS[m.group(1)])
+            return _target(m), ("Rename", col(m), NAME_IDS[m.group(4)])
         raise ValueError("unrecognised oracle statement: %r" % s)
     if mysql:
-        m = re.fullmatch(r"ALTER TABLE %s (MODIFY c|CHANGE c (\w+)) (%s) (NULL|NOT NULL)( AUTO_INCREMENT)?"
-                         r"(?: DEFAULT ('[^']*'))?(?: COMMENT ('[^']*'))?" % (T, ty_alt), s)
+        m = re.fullmatch(AT + r"(?P<kw>MODIFY|CHANGE) " + COL + r"(?P<new> \w+)? (?P<ty>%s) (?P<nl>NULL|NOT NULL)(?P<ai> AUTO_INCREMENT)?"
+                         r"(?: DEFAULT (?P<df>'[^']*'))?(?: COMMENT (?P<cm>'[^']*'))?" % ty_alt, s)
+        if m and (m.group("kw") == "CHANGE") == (m.group("new") is not None):
+            spec = {"type": tokens[m.group("ty")], "null": m.group("nl") == "NULL", "autoinc": bool(m.group("ai")),
+                    "default": None if m.group("df") is None else DEFAULT_IDS[_lit(m.group("df"))],
+                    "comment": None if m.group("cm") is None else COMMENT_IDS[_lit(m.group("cm"))]}
+            if m.group("kw") == "CHANGE":
+                return _target(m), ("MySQLChange", col(m), NAME_IDS[m.group("new").strip()], spec)
+            return _target(m), ("MySQLModify", col(m), spec)
+        m = re.fullmatch(AT + "ALTER COLUMN " + COL + r" (DROP DEFAULT|SET DEFAULT (?P<df>'[^']*'))", s)
         if m:
-            spec = {"type": tokens[m.group(3)], "null": m.group(4) == "NULL", "autoinc": bool(m.group(5)),
-                    "default": None if m.group(6) is None else DEFAULT_IDS[_lit(m.group(6))],
-                    "comment": None if m.group(7) is None else COMMENT_IDS[_lit(m.group(7))]}
-            if m.group(2):
-                return ("MySQLChange", NAME_IDS[m.group(2)], spec)
-            return ("MySQLModify", spec)
-        m = re.fullmatch(r"ALTER TABLE %s ALTER COLUMN c (DROP DEFAULT|SET DEFAULT ('[^']*'))" % T, s)
-        if m:
-            return ("MySQLAlterDefault", None if m.group(2) is None else DEFAULT_IDS[_lit(m.group(2))])
+            return _target(m), ("MySQLAlterDefault", col(m), None if m.group("df") is None else DEFAULT_IDS[_lit(m.group("df"))])
         raise ValueError("unrecognised mysql statement: %r" % s)
     if dn == "mssql":
-        m = re.fullmatch(r"ALTER TABLE %s ALTER COLUMN c (%s) (NULL|NOT NULL)" % (T, ty_alt), s)
+        m = re.fullmatch(AT + "ALTER COLUMN " + COL + r" (?P<ty>%s) (?P<nl>NULL|NOT NULL)" % ty_alt, s)
         if m:
-            return ("MSSQLAlterNull", tokens[m.group(1)], m.group(2) == "NULL")
-        m = re.fullmatch(r"ALTER TABLE %s ALTER COLUMN c (%s)" % (T, ty_alt), s)
+            return _target(m), ("MSSQLAlterNull", col(m), tokens[m.group("ty")], m.group("nl") == "NULL")
+        m = re.fullmatch(AT + "ALTER COLUMN " + COL + r" (?P<ty>%s)" % ty_alt, s)
         if m:
-            return ("MSSQLAlterType", tokens[m.group(1)])
-        m = re.fullmatch(r"ALTER TABLE %s ADD DEFAULT ('[^']*') FOR c" % T, s)
+            return _target(m), ("MSSQLAlterType", col(m), tokens[m.group("ty")])
+        m = re.fullmatch(AT + r"ADD DEFAULT (?P<df>'[^']*') FOR " + COL, s)
         if m:
-            return ("MSSQLAddDefault", DEFAULT_IDS[_lit(m.group(1))])
-        m = re.fullmatch(r"EXEC sp_rename '%s\.c', (\w+), 'COLUMN'" % T, s)
+            return _target(m), ("MSSQLAddDefault", col(m), DEFAULT_IDS[_lit(m.group("df"))])
+        m = re.fullmatch(r"EXEC sp_rename '" + TBL + r"\." + COL + r"', (?P<new>\w+), 'COLUMN'", s)
         if m:
-            return ("MSSQLSpRename", NAME_IDS[m.group(1)])
-        drop = ("declare @const_name varchar(256)\n"
-                "select @const_name = QUOTENAME([name]) from sys.default_constraints\n"
-                "where parent_object_id = object_id('%s')\n"
-                "and col_name(parent_object_id, parent_column_id) = 'c'\n"
-                "exec('alter table %s drop constraint ' + @const_name)" % (tbl, tbl))
-        if s == drop:
-            return ("MSSQLDropDefault",)
+            return _target(m), ("MSSQLSpRename", col(m), NAME_IDS[m.group("new")])
+        m = re.fullmatch(r"declare @const_name varchar\(256\)\n"
+                         r"select @const_name = QUOTENAME\(\[name\]\) from sys\.default_constraints\n"
+                         r"where parent_object_id = object_id\('" + TBL + r"'\)\n"
+                         r"and col_name\(parent_object_id, parent_column_id\) = '" + COL + r"'\n"
+                         r"exec\('alter table (?:(?P<sch2>\w+)\.)?(?P<tbl2>\w+) drop constraint ' \+ @const_name\)", s)
+        if m:
+            if _target(m) != _target(m, "sch2", "tbl2"):
+                raise ValueError("drop-default statement names two different tables: %r" % s)
+            return _target(m), ("MSSQLDropDefault", col(m))
         raise ValueError("unrecognised mssql statement: %r" % s)
     # default, sqlite, postgresql
-    m = re.fullmatch(r"ALTER TABLE %s ALTER COLUMN c (SET|DROP) NOT NULL" % T, s)
+    m = re.fullmatch(AT + "ALTER COLUMN " + COL + r" (?P<k>SET|DROP) NOT NULL", s)
     if m:
-        return ("SetNull", m.group(1) == "DROP")
-    m = re.fullmatch(r"ALTER TABLE %s ALTER COLUMN c (DROP DEFAULT|SET DEFAULT ('[^']*'))" % T, s)
+        return _target(m), ("SetNull", col(m), m.group("k") == "DROP")
+    m = re.fullmatch(AT + "ALTER COLUMN " + COL + r" (DROP DEFAULT|SET DEFAULT (?P<df>'[^']*'))", s)
     if m:
-        return ("SetDefault", None if m.group(2) is None else DEFAULT_IDS[_lit(m.group(2))])
+        return _target(m), ("SetDefault", col(m), None if m.group("df") is None else DEFAULT_IDS[_lit(m.group("df"))])
     if dn == "postgresql":
-        m = re.fullmatch(r"ALTER TABLE %s ALTER COLUMN c TYPE (%s)(?: USING (\w+))? ?" % (T, ty_alt), s)
+        m = re.fullmatch(AT + "ALTER COLUMN " + COL + r" TYPE (?P<ty>%s)(?: USING (?P<u>\w+))? ?" % ty_alt, s)
         if m:
-            return ("SetType", tokens[m.group(1)], None if m.group(2) is None else USING_IDS[m.group(2)])
-        m = re.fullmatch(r"COMMENT ON COLUMN %s\.c IS (NULL|'[^']*')" % T, s)
+            return _target(m), ("SetType", col(m), tokens[m.group("ty")], None if m.group("u") is None else USING_IDS[m.group("u")])
+        m = re.fullmatch(r"COMMENT ON COLUMN " + TBL + r"\." + COL + r" IS (?P<cm>NULL|'[^']*')", s)
         if m:
-            return ("SetComment", None if m.group(1) == "NULL" else COMMENT_IDS[_lit(m.group(1))])
-        m = re.fullmatch(r"ALTER TABLE %s RENAME c TO (\w+)" % T, s)
+            return _target(m), ("SetComment", col(m), None if m.group("cm") == "NULL" else COMMENT_IDS[_lit(m.group("cm"))])
+        m = re.fullmatch(AT + "RENAME " + COL + r" TO (?P<new>\w+)", s)
         if m:
-            return ("Rename", NAME_IDS[m.group(1)])
+            return _target(m), ("Rename", col(m), NAME_IDS[m.group("new")])
     else:
-        m = re.fullmatch(r"ALTER TABLE %s ALTER COLUMN c TYPE (%s)" % (T, ty_alt), s)
+        m = re.fullmatch(AT + "ALTER COLUMN " + COL + r" TYPE (?P<ty>%s)" % ty_alt, s)
         if m:
-            return ("SetType", tokens[m.group(1)], None)
-        m = re.fullmatch(r"ALTER TABLE %s RENAME %sc TO (\w+)" % (T, "COLUMN " if dn == "sqlite" else ""), s)
+            return _target(m), ("SetType", col(m), tokens[m.group("ty")], None)
+        m = re.fullmatch(AT + "RENAME %s" % ("COLUMN " if dn == "sqlite" else "") + COL + r" TO (?P<new>\w+)", s)
         if m:
-            return ("Rename", NAME_IDS[m.group(1)])
+            return _target(m), ("Rename", col(m), NAME_IDS[m.group("new")])
     raise ValueError("unrecognised %s statement: %r" % (dn, s))
 
 
 def tokenize(h, text):
     _, _, tokens, _ = _context(h["d"])
-    tbl = "s.t" if h["schema"] else "t"
-    return [parse_statement(h["d"], s, tbl, tokens) for s in split_statements(h["d"], text)]
+    return [parse_statement(h["d"], s, tokens) for s in split_statements(h["d"], text)]
 
 
 def run_case(h):
     text, err = call_real(h)
-    stmts = tokenize(h, text)          # a ValueError here is a harness problem and propagates
-    out = {"sql": text, "stmts": [list(s) for s in stmts], "err": err}
-    shape = "%s-%s" % (h["d"], err or ("ok%d" % len(stmts)))
-    return dict(cin=encode_in(h), cout=encode_out(stmts, err, h["d"]), out=out,
-                nontrivial=bool(stmts) and err is None, shape=shape)
+    tstmts = tokenize(h, text)          # a ValueError here is a harness problem and propagates
+    out = {"sql": text, "stmts": [[t] + list(st) for t, st in tstmts], "err": err}
+    shape = "%s-%s" % (h["d"], err or ("ok%d" % len(tstmts)))
+    return dict(cin=encode_in(h), cout=encode_out(tstmts, err, h["d"]), out=out,
+                nontrivial=bool(tstmts) and err is None, shape=shape)
 
 
-# Python re-statement of the per-attribute effect check, used ONLY to attribute a decider failure to the known
-# finding: the failure is the known one iff everything except the autoincrement attribute is as it should be.
+# Python re-statement of the decider, used ONLY to attribute a decider failure to a known finding: the failure is a known
+# one iff the deviations found are exactly of the known kinds.  stmts: [target, kind, column, args...]
 _ASSIGN = {
-    "SetNull": lambda s: {"null": s[1]}, "SetDefault": lambda s: {"default": s[1]}, "MySQLAlterDefault": lambda s: {"default": s[1]},
-    "SetType": lambda s: {"type": s[1]}, "SetComment": lambda s: {"comment": s[1]}, "Rename": lambda s: {"name": s[1]},
-    "MSSQLSpRename": lambda s: {"name": s[1]},
-    "MySQLChange": lambda s: dict(s[2], name=s[1]), "MySQLModify": lambda s: dict(s[1]),
-    "MSSQLAlterNull": lambda s: {"type": s[1], "null": s[2]}, "MSSQLAlterType": lambda s: {"type": s[1], "null": True},
-    "MSSQLDropDefault": lambda s: {"default": None}, "MSSQLAddDefault": lambda s: {"default": s[1]},
-    "DropConstraint": lambda s: {}, "AddConstraint": lambda s: {},
+    "SetNull": lambda a: {"null": a[0]}, "SetDefault": lambda a: {"default": a[0]}, "MySQLAlterDefault": lambda a: {"default": a[0]},
+    "SetType": lambda a: {"type": a[0]}, "SetComment": lambda a: {"comment": a[0]}, "Rename": lambda a: {"name": a[0]},
+    "MSSQLSpRename": lambda a: {"name": a[0]},
+    "MySQLChange": lambda a: dict(a[1], name=a[0]), "MySQLModify": lambda a: dict(a[0]),
+    "MSSQLAlterNull": lambda a: {"type": a[0], "null": a[1]}, "MSSQLAlterType": lambda a: {"type": a[0], "null": True},
+    "MSSQLDropDefault": lambda a: {"default": None}, "MSSQLAddDefault": lambda a: {"default": a[0]},
+    "DropConstraint": lambda a: {}, "AddConstraint": lambda a: {},
 }
 _RESTATES = {"MySQLChange": {"type", "null", "default", "comment", "autoinc"},
              "MySQLModify": {"type", "null", "default", "comment", "autoinc"},
@@ -453,41 +476,59 @@ _RESTATES = {"MySQLChange": {"type", "null", "default", "comment", "autoinc"},
 _NOTHING = object()
 
 
-def _only_autoinc_wrong(h, stmts):
+def _deviations(h, stmts):
+    """set of deviation kinds of a completed call: 'autoinc' (requested autoincrement left alone), 'check-after-rename'
+    (only ADD CONSTRAINT statements name a stale column name), 'other'"""
     r, e = h["req"], h["ex"]
+    dev = set()
     tri = lambda code, v: _NOTHING if code == "F" else (None if code == "N" else v)
     opt = lambda x: _NOTHING if x is None else x
     req = {"name": opt(NAME_IDS.get(r["name"])), "type": opt(r["type"]), "null": opt(r["null"]),
-           "default": tri(r["default"], 9), "comment": tri(r["comment"], 31)}
+           "default": tri(r["default"], 9), "comment": tri(r["comment"], 31), "autoinc": opt(r["autoinc"])}
     stated = {"name": 1, "type": opt(e["type"]), "null": opt(e["null"]), "default": tri(e["default"], 7),
-              "comment": _NOTHING if e["comment"] is None else 30}
-    reading = {"null": True, "default": None, "comment": None}
-    last, restated = {}, set()
+              "comment": _NOTHING if e["comment"] is None else 30, "autoinc": opt(e["autoinc"])}
+    reading = {"null": True, "default": None, "comment": None, "autoinc": False}
+    last, restated, cur = {}, set(), 1
+    want_t = "tS" if h["schema"] else "tN"
     for s in stmts:
-        s = tuple(s)
-        last.update(_ASSIGN[s[0]](s))
-        restated |= _RESTATES.get(s[0], set())
-    for a in ("name", "type", "null", "default", "comment"):
+        t, kind, c, args = s[0], s[1], s[2], tuple(s[3:])
+        if t != want_t:
+            dev.add("other")
+        if c is not None and c != cur:
+            dev.add("check-after-rename" if kind == "AddConstraint" else "other")
+        a = _ASSIGN[kind](args)
+        cur = a.get("name", cur)
+        last.update(a)
+        restated |= _RESTATES.get(kind, set())
+    for a in ("name", "type", "null", "default", "comment", "autoinc"):
         v = last.get(a, _NOTHING)
         if req[a] is not _NOTHING:
             if v is _NOTHING:
                 v = stated[a]
             if v is _NOTHING or v != req[a]:
-                return False
+                dev.add("autoinc" if a == "autoinc" and a not in last else "other")
         elif v is not _NOTHING:
             if stated[a] is not _NOTHING:
                 if v != stated[a]:
-                    return False
+                    dev.add("other")
             elif not (a in restated and a in reading and v == reading[a]):
-                return False
-    return "autoinc" not in last      # the autoincrement attribute itself is left alone
+                dev.add("other")
+    return dev
 
 
 def classify(h, out):
-    """known finding: a requested autoincrement= is silently ignored outside MySQL/MariaDB (nothing emitted for it, no
-    exception), and that is the ONLY thing wrong with the output"""
-    r, e = h["req"], h["ex"]
-    if h["d"] not in ("mysql", "mariadb") and r["autoinc"] is not None and e["autoinc"] != r["autoinc"] \
-            and out is not None and out.get("err") is None and _only_autoinc_wrong(h, out["stmts"]):
+    """known findings, attributed only when they are the ONLY things wrong with the output of a completed call:
+    C13-autoincrement-ignored: a requested autoincrement= is silently ignored outside MySQL/MariaDB;
+    C13-type-check-added-after-rename: with new_column_name and a type_ carrying a type-bound CHECK, toimpl.alter_column
+    emits ADD CONSTRAINT ... CHECK (<old name> IN ...) after the rename"""
+    if out is None or out.get("err") is not None:
+        return None
+    dev = _deviations(h, out["stmts"])
+    r = h["req"]
+    if not dev or "other" in dev:
+        return None
+    if "check-after-rename" in dev:
+        return "C13-type-check-added-after-rename" if r["name"] is not None and r["type"] is not None else None
+    if dev == {"autoinc"} and h["d"] not in ("mysql", "mariadb"):
         return "C13-autoincrement-ignored"
     return None
